@@ -21,12 +21,12 @@ CHECKS = {
  'C14': ('proof', "Verus proves copy_node issues exactly one mknod with the source's type, permission bits and device number (st_rdev), the FileType classification table, and the workers' replace/no-clobber logic for special files.", '§5 C14'),
  'C15': ('proof', "Verus proves the try_reflink mode table (never: no clone event; always: Ok only after a successful clone; auto: falls back), the FICLONE errno classification, and that the clone precedes any data copy in both drivers.", '§5 C15'),
  'C16': ('proof', "Verus proves on the validation range of main() (slice) that it has no effect on the file system model at all and that reaching the copy phase implies every rejection class main checks itself has been ruled out (no source, missing source, directory without recursive, several sources onto a non-directory, directory onto a file, source textually equal to destination or its target base); opts_check rejects force+no-clobber. Partial: clap/glob value parsing is external.", '§5 C16'),
+ 'C17': ('proof', "Verus proves on xcp's own gitignore code (libxcp/src/paths.rs): without the option no matcher is built and the filter passes every entry; with it the matcher is anchored at the source root and reads exactly <source>/.gitignore; an entry passes iff the matcher does not exclude it when asked with the kind of the entry itself (directory-only patterns must not match a symbolic link to a directory). Partial: the matcher's pattern semantics (the `ignore` crate, assumed to be git's), that walkdir's filter_entry applies the filter to every entry and prunes beneath a rejected directory, and that a .gitignore that cannot be read is reported are not decided.", '§5 C17'),
  'C18': ('proof', "Verus proves fsync is the last event of finalisation when requested and absent otherwise; that it follows every data write of the handle rests on Rust drop/Arc semantics (assumed).", '§5 C10/C18'),
  'C19': ('proof', "Verus proves merge_extents coverage (every byte covered by the input is covered by the output) with explicit overflow obligations, map_extents completeness/order over any number of FIEMAP pages against the assumed FIEMAP contract, and the SEEK_DATA/SEEK_HOLE segment search, for all inputs with no bound.", '§5 C19'),
 }
 NA = {
  'C06': 'quantifies over thread interleavings; Kani has no threads and Verus would need the program rewritten around permission types (a model)',
- 'C17': "the iff is the ignore crate's matcher against git semantics; xcp's own code is two calls into it",
  'C20': 'a bound on simultaneously open descriptors depends on the pool queue and the scheduler; no function-level contract expresses it',
 }
 def main():
